@@ -55,7 +55,7 @@ impl<B: Buffer> Editor<B> {
 //@     ensures valid_utf8(self.line_bytes()), self.line_bytes().len() <= self.cap()
 //@ { }
     pub fn new(buffer: B) -> Self {
-//@ ensures r.wf(), r.line() == Seq::<char>::empty(), r.line_bytes() == Seq::<u8>::empty(), r.cur() == 0, r.cap() == buffer.bytes().len(),   // [C05,~C01,~C06,~C02,C03,~C11,~C17]
+//@ ensures r.wf(), r.line() == Seq::<char>::empty(), r.line_bytes() == Seq::<u8>::empty(), r.cur() == 0, r.cap() == buffer.bytes().len(),   // [C05,~C01,~C06,~C02,~C03,~C11,~C17]
 //@ ---
 //@ proof { assert(buffer.bytes().subrange(0, 0) =~= Seq::<u8>::empty()); }
         Self {
@@ -77,7 +77,7 @@ impl<B: Buffer> Editor<B> {
 //@     // bytes behind the merged continuation alone)
 //@     forall|req: Request<'_>, a: &mut Autocompletion<'_>| #[trigger] f.ensures((req, a), ()) ==> crate::autocomplete::ac_api_only(a),
 //@ ensures
-//@     final(self).wf(), final(self).cap() == old(self).cap(),   // [C03,C11,~C01,~C02,C05,~C06,~C17]
+//@     final(self).wf(), final(self).cap() == old(self).cap(),   // [~C03,C11,~C01,~C02,C05,~C06,~C17]
 //@     // C11: nothing happens unless the line up to the blanks right of the cursor is a single partially typed word
 //@     ac_word(old(self).line_bytes().subrange(0, old(self).ac_req_len())) is None ==>
 //@         final(self).line_bytes() == old(self).line_bytes() && final(self).cur() == old(self).cur(),   // [C11]
@@ -234,7 +234,7 @@ impl<B: Buffer> Editor<B> {
 
     pub fn clear(&mut self) {
 //@ requires old(self).wf_mem(),
-//@ ensures final(self).wf(), final(self).line() == Seq::<char>::empty(), final(self).line_bytes() == Seq::<u8>::empty(),   // [~C01,~C02,C03,C05,~C06,~C11,~C17]
+//@ ensures final(self).wf(), final(self).line() == Seq::<char>::empty(), final(self).line_bytes() == Seq::<u8>::empty(),   // [~C01,~C02,~C03,C05,~C06,~C11,~C17]
 //@     final(self).cur() == 0, final(self).cap() == old(self).cap(),   // [C05,~C01,~C06]
         self.valid = 0;
         self.cursor = 0;
@@ -250,7 +250,7 @@ impl<B: Buffer> Editor<B> {
     pub fn insert(&mut self, text: &str) -> Option<&str> {
 //@ requires old(self).wf(),
 //@ ensures
-//@     final(self).wf(), final(self).cap() == old(self).cap(),   // [~C01,~C02,C03,C05,~C06,~C11,~C17]
+//@     final(self).wf(), final(self).cap() == old(self).cap(),   // [~C01,~C02,~C03,C05,~C06,~C11,~C17]
 //@     // C05: accepted if and only if the line's UTF-8 length stays within the command buffer
 //@     (r is Some) == (old(self).line_bytes().len() + text.spec_bytes().len() <= old(self).cap()),   // [C05,~C01,~C06]
 //@     // C05: a rejected insertion changes nothing
@@ -330,7 +330,7 @@ impl<B: Buffer> Editor<B> {
 
     pub fn move_left(&mut self) -> bool {
 //@ requires old(self).wf(),
-//@ ensures final(self).wf(), final(self).line_bytes() == old(self).line_bytes(), final(self).cap() == old(self).cap(),   // [~C01,~C02,C03,C05,~C06,~C11,~C17]
+//@ ensures final(self).wf(), final(self).line_bytes() == old(self).line_bytes(), final(self).cap() == old(self).cap(),   // [~C01,~C02,~C03,C05,~C06,~C11,~C17]
 //@     // C05: Left moves by one whole character and stops at the start
 //@     r == (old(self).cur() > 0), final(self).cur() == (if old(self).cur() > 0 { old(self).cur() - 1 } else { 0 }) as nat,   // [C05,~C01,~C06]
         if self.cursor > 0 {
@@ -343,7 +343,7 @@ impl<B: Buffer> Editor<B> {
 
     pub fn move_right(&mut self) -> bool {
 //@ requires old(self).wf(),
-//@ ensures final(self).wf(), final(self).line_bytes() == old(self).line_bytes(), final(self).cap() == old(self).cap(),   // [~C01,~C02,C03,C05,~C06,~C11,~C17]
+//@ ensures final(self).wf(), final(self).line_bytes() == old(self).line_bytes(), final(self).cap() == old(self).cap(),   // [~C01,~C02,~C03,C05,~C06,~C11,~C17]
 //@     // C05: Right moves by one whole character and stops at the end
 //@     r == (old(self).cur() < old(self).line().len()),
 //@     final(self).cur() == (if old(self).cur() < old(self).line().len() { old(self).cur() + 1 } else { old(self).cur() }),   // [C05,~C01,~C06]
@@ -359,7 +359,7 @@ impl<B: Buffer> Editor<B> {
 //@ #[verifier::rlimit(60)]
     pub fn remove(&mut self) {
 //@ requires old(self).wf(),
-//@ ensures final(self).wf(), final(self).cap() == old(self).cap(), final(self).cur() == old(self).cur(),   // [~C01,~C02,C03,C05,~C06,~C11,~C17]
+//@ ensures final(self).wf(), final(self).cap() == old(self).cap(), final(self).cur() == old(self).cur(),   // [~C01,~C02,~C03,C05,~C06,~C11,~C17]
 //@     // C05: the character at the cursor is removed, whatever its byte length; at the end nothing happens
 //@     final(self).line() == (if old(self).cur() < old(self).line().len() { old(self).line().remove(old(self).cur() as int) } else { old(self).line() }),   // [C05,C17,~C01,~C06]
 //@ ---
